@@ -129,6 +129,8 @@ def cfg_const_scan():
 def load_units():
     units = []
     for path in sorted(glob.glob(os.path.join(VERIF, 'units', '*.py'))):
+        if os.path.basename(path).startswith('wip_') and not os.environ.get('VERIF_WIP'):
+            continue        # work in progress (a builder is still writing it): loaded only on request
         spec = importlib.util.spec_from_file_location('units_' + os.path.basename(path)[:-3], path)
         mod = importlib.util.module_from_spec(spec)
         spec.loader.exec_module(mod)
